@@ -208,3 +208,34 @@ def iter_dump_states(path: str, wanted=None):
     flush()
     if state:
         yield state
+
+
+def last_sim_state(path: str, wanted=None):
+    """Last state of a `tlc -simulate file=...` behaviour file (STATE_n == /\\ v = ... blocks)."""
+    with open(path, "r", encoding="utf-8", errors="surrogateescape") as fp:
+        text = fp.read()
+    i = text.rfind("STATE_")
+    if i < 0:
+        return None
+    block = text[i:]
+    block = block[block.index("==") + 2:]
+    state = {}
+    cur = None
+    for line in block.split("\n"):
+        if line.startswith("/\\ ") and " = " in line:
+            head, _, rest = line[3:].partition(" = ")
+            if head.replace("_", "").isalnum():
+                if cur and (wanted is None or cur[0] in wanted):
+                    state[cur[0]] = parse_value("\n".join(cur[1]))
+                cur = (head, [rest])
+                continue
+        if line.startswith("====") or not line.strip():
+            if cur and (wanted is None or cur[0] in wanted):
+                state[cur[0]] = parse_value("\n".join(cur[1]))
+            cur = None
+            continue
+        if cur:
+            cur[1].append(line)
+    if cur and (wanted is None or cur[0] in wanted):
+        state[cur[0]] = parse_value("\n".join(cur[1]))
+    return state
